@@ -4,7 +4,7 @@ from __future__ import annotations
 
 import warnings
 
-from common import EXN_CODES, OS, S, enc_tree, encZ, lift
+from common import EXN_CODES, Interner, OS, S, enc_tree, encZ, lift
 
 
 def elem_path(elem, root):
@@ -42,7 +42,7 @@ def enc_nested(x, leaf):
     return [1, leaf(x)]
 
 
-def observe_file(f):
+def observe_file(f, intern=None):
     """f: docx2python.docx_reader.File -> [0, obs] | [1, exn code]"""
     from docx2python.depth_collector import get_par_strings
     from docx2python.docx_output import _join_runs
@@ -56,7 +56,7 @@ def observe_file(f):
             runs = get_par_strings(pars)
             plain = _join_runs(runs)
             obs = [
-                enc_tree(root),
+                enc_tree(root, intern),
                 enc_nested(pars, lambda p: enc_par(p, root)),
                 enc_nested(runs, S),
                 enc_nested(plain, S),
@@ -67,7 +67,7 @@ def observe_file(f):
             return [1, EXN_CODES.get(type(ex).__name__, 98)], ex
     
 
-def model_case_for_file(reader, f, raw_root):
+def model_case_for_file(reader, f, raw_root, intern=None):
     """kind-1 case: [1, html, dup, rels, numtbl, rnode]"""
     html = 1 if reader.xml2html_format else 0
     dup = 1 if reader.duplicate_merged_cells else 0
@@ -78,4 +78,4 @@ def model_case_for_file(reader, f, raw_root):
             [S(k), [[OS(a.fmt), [] if a.start is None else [encZ(a.start)]] for a in v]]
             for k, v in reader.numId2Attrs.items()
         ]
-    return [1, html, dup, rels, numtbl, lift(raw_root)]
+    return [1, html, dup, rels, numtbl, lift(raw_root, intern)]
